@@ -694,8 +694,19 @@ func (r *run) intercept(req *fakekafka.Request) *fakekafka.Reply {
 		if len(f.Chunks) > 0 {
 			rep.Chunks = f.Chunks
 		}
-		if f.Hold && rep.Gate == nil {
-			rep.Gate = r.held[holdKey]
+		if f.Hold && r.held[holdKey] != nil {
+			if rep.Gate == nil {
+				rep.Gate = r.held[holdKey]
+			} else {
+				// a reply the coordinator already gates (JoinGroup, SyncGroup): both gates must open
+				both, first, second := make(chan struct{}), rep.Gate, r.held[holdKey]
+				go func() {
+					<-first
+					<-second
+					close(both)
+				}()
+				rep.Gate = both
+			}
 		}
 	}
 	if rep.Close || rep.None {
@@ -711,8 +722,22 @@ func (r *run) intercept(req *fakekafka.Request) *fakekafka.Reply {
 	rev := trace.Event{"ev": "reply", "conn": cid, "broker": b, "api": name, "v": int(req.Version), "corr": int(req.CorrID), "o": o, "leg": leg,
 		"cut": cut, "len": flen, "closed": false, "node": node, "n": n, "alive": alive, "topics": topics, "ctrlr": ctrlr, "ranges": []interface{}{}}
 	if rep.Lazy != nil {
-		// gated replies of the group coordinator: the frame length is not known yet
-		rev["len"] = 0
+		// gated replies of the group coordinator: the frame is built when the gate opens
+		lazy := rep.Lazy
+		cutAt, chunks := rep.CutAt, rep.Chunks
+		rep.Lazy = func() fakekafka.Reply {
+			x := lazy()
+			n := 8 + len(x.Body)
+			rev["len"] = n
+			if cutAt >= 0 && cutAt < n {
+				x.CutAt = cutAt
+				rev["cut"] = cutAt
+			} else {
+				rev["cut"] = -1
+			}
+			x.Chunks = chunks
+			return x
+		}
 	}
 	rep.OnSend = func() { r.rec.Emit(rev) }
 	return &rep
@@ -1104,7 +1129,7 @@ func (r *run) planOf(op *Op) map[string]interface{} {
 		names = append(names, n)
 	}
 	return map[string]interface{}{"o": op.O, "kind": op.Kind, "t": op.T, "p": op.P, "k": op.K, "parts": parts, "names": names, "all": op.AllTopics,
-		"cancelAfterMs": op.CancelAfterMs, "deadlineMs": op.DeadlineMs, "expectCtx": op.ExpectCtx, "fault": f}
+		"cancelAfterMs": op.CancelAfterMs, "deadlineMs": op.DeadlineMs, "expectCtx": op.ExpectCtx, "mustSucceed": op.MustSucceed, "fault": f}
 }
 
 // runOp performs one call under a watchdog.
@@ -1130,8 +1155,13 @@ func (r *run) runOp(op *Op) {
 	if op.CancelAfterMs > 0 {
 		// cancel once the request is in flight (it reached a broker), or after a while when it never gets there
 		early := false
+		arrived := r.arrived[op.O]
+		if op.CancelBlind {
+			arrived = make(chan struct{})
+			close(arrived)
+		}
 		select {
-		case <-r.arrived[op.O]:
+		case <-arrived:
 		case <-time.After(1500 * time.Millisecond):
 		case x := <-ch:
 			ch <- x
